@@ -19,7 +19,8 @@ RULE = ('random trajectory sets (plain and lumped, 2..5 states, 1..3 trajectorie
         'with the exact model estimated at that lag from the plain macro trajectory; keys are the state '
         'labels. Non-trivial: >= 2 lags and >= 3 model time points.'
         ' Added classes: primitive chains without self transitions and 2-cycles, lag times as int8/int16 arrays with tmax beyond that type, slowly interconverting chains (matrix-power entries between 1e-8 and 1e-6), returned arrays rescaled/overwritten before a second identical call.'
-        ' Later: bijective lumpings in another label order, arrays of different integer widths with > 128 states (relational), a state entered but never left at the lag, a trajectory alone in its own state.')
+        ' Later: bijective lumpings in another label order, arrays of different integer widths with > 128 states (relational), a state entered but never left at the lag, a trajectory alone in its own state.'
+        ' Fifth/sixth batch: unsigned lag arrays, one narrow type with >= 17 states, badly lumped driven rings with `positive` switched on the shared object.')
 TRUSTED = ['np.linalg.matrix_power in floats (1e-10)', 'the geomspace/around reference grid is checked as stated, not modelled']
 ASSUMPTIONS = ['tmax, lags < 2^26 (float floor(tmax/lag) equals integer division)']
 BATCH = 40
